@@ -17,7 +17,9 @@ type SiteTable struct {
 	// HotFuncs: functions that touch package-level state, synchronisation
 	// primitives or start goroutines (syntactic scan).
 	HotFuncs []string `json:"hot_funcs"`
-	Sites    []struct {
+	// Seen is filled in by the runs of a worker: yield sites reached.
+	Seen  []bool `json:"-"`
+	Sites []struct {
 		ID   uint32 `json:"id"`
 		File string `json:"file"`
 		Line int    `json:"line"`
@@ -36,6 +38,7 @@ func LoadSites(path string) (*SiteTable, error) {
 	if err := json.Unmarshal(raw, t); err != nil {
 		return nil, err
 	}
+	t.Seen = make([]bool, len(t.Sites))
 	return t, nil
 }
 
